@@ -27,7 +27,25 @@ SIDE = None
 
 def side(kind, what, why=""):
     if SIDE is not None:
-        SIDE.append((kind, what, why))
+        SIDE.add(kind, what, why)
+
+
+class SideLog:
+    """collects definedness side conditions together with the context
+    (location, path/loop-index assumptions) in which they were emitted"""
+
+    def __init__(self, ctx=None):
+        self.items = []
+        self.ctx = ctx
+        self.seen = set()
+
+    def add(self, kind, what, why):
+        loc, assumed = self.ctx() if self.ctx else ("?", ())
+        k = (kind, _k(what) if not isinstance(what, tuple) else tuple(_k(w) for w in what), loc)
+        if k in self.seen:
+            return
+        self.seen.add(k)
+        self.items.append((kind, what, why, loc, tuple(assumed)))
 
 
 class Atom:
@@ -709,6 +727,18 @@ def mk_sum(v, bound, body):
     return out
 
 
+PARTITIONS = {}   # tag -> (number of blocks, total length): consecutive blocks of an axis
+
+
+def new_partition(total, prefix="blk"):
+    """a fresh, arbitrary partition of range(total) into consecutive blocks;
+    returns (tag, nblocks, size(b), offset(b))"""
+    tag = "%s%d" % (prefix, next(_fresh))
+    nb = sym("B_" + tag, "int")
+    PARTITIONS[tag] = (nb, P(total))
+    return tag, nb, (lambda b: app("csz:" + tag, b, sort="int")), (lambda b: app("coff:" + tag, b, sort="int"))
+
+
 CONCRETE_UNROLL = 0  # Tier-A keeps even concrete bounds symbolic unless set
 
 
@@ -726,6 +756,33 @@ def _multi_sum(vars_, mono):
             for m2, c2 in newbody.terms:
                 out = out + _multi_sum(vars_ + [(w, wb)], m2) * c2
             return out
+    # (a') partition collapse: Σ_b Σ_{j<size(b)} f(off(b)+j) = Σ_{s<total} f(s)
+    for (vj, bj), nj in zip(vars_, names):
+        if not (bj.is_monomial() and len(bj.terms[0][0]) == 1 and bj.terms[0][1] == 1):
+            continue
+        at, pw = bj.terms[0][0][0]
+        if pw != 1 or at.kind != "app" or not str(at.args[0]).startswith("csz:"):
+            continue
+        tag = at.args[0][4:]
+        nb = symname(at.args[1])
+        if nb is None or nb not in names or tag not in PARTITIONS:
+            continue
+        nblocks, total = PARTITIONS[tag]
+        vb, bb = vars_[names.index(nb)]
+        if not equal(bb, nblocks):
+            continue
+        sv = fresh("s")
+        off = app("coff:" + tag, vb, sort="int")
+        m2 = subst(Poly({mono: Fraction(1)}), {nj: sv - off})
+        if nb in m2.syms:
+            continue
+        others = [(v, b) for (v, b), n in zip(vars_, names) if n not in (nj, nb)]
+        if any(nb in b.syms or nj in b.syms for _, b in others):
+            continue
+        out = ZERO
+        for m3, c3 in m2.terms:
+            out = out + _multi_sum(others + [(sv, total)], m3) * c3
+        return out
     # (b) variables that do not occur; factors independent of every variable
     nameset = frozenset(names)
     used = set()
@@ -760,7 +817,7 @@ def _multi_sum(vars_, mono):
                 if e is not None and not any(n in b2.syms for _, b2, _n in keep):
                     rest = Poly({tuple(x for x in inner if x[0] is not a): Fraction(1)})
                     val = subst(rest, {n: e})
-                    side("range", (e, b), "delta elimination")
+                    side("delta-range", (e, b), "delta elimination")
                     others = [(v2, b2) for v2, b2, n2 in keep if n2 != n]
                     out = ZERO
                     for m2, c2 in val.terms:
